@@ -1,7 +1,7 @@
 ------------------------------- MODULE MC_Web -------------------------------
 EXTENDS Web, Json
 Requests == [method : Methods, maxmem : MaxmemVals, augment : AugmentVals, sim : SimVals]
-ASSUME PrintT("UNIV " \o ToJson([requests |-> {[r |-> r, status |-> Status(r), augments |-> Augments(r)] : r \in Requests}]))
+ASSUME PrintT("UNIV " \o ToJson([requests |-> {[r |-> r, status |-> Status(r), augments |-> Augments(r), twins |-> LockTwinsBuckets(r)] : r \in Requests}]))
 (* the loop ends: at most one attempt per doubling, plus one *)
 RECURSIVE Log2Up(_)
 Log2Up(x) == IF x <= 1 THEN 0 ELSE 1 + Log2Up((x + 1) \div 2)
